@@ -72,6 +72,14 @@ pub fn eval(case: &J) -> Outcome {
     let s2 = sql.clone();
     let th = std::thread::spawn(move || compile(&s2)).join();
     match th { Ok(r) => again("other-thread", r, &mut out), Err(_) => out.fail(&format!("C16/determ/outcome-differs/other-thread/{cls}"), format!("{sql}: thread died")) }
+    // several threads at once, each compiling the other queries of the case around the one under test (different interleavings of the global counter)
+    let others: Vec<String> = case["pre"].as_array().unwrap().iter().map(|p| p.as_str().unwrap().to_string()).collect();
+    let handles: Vec<_> = (0..3usize).map(|t| { let (s3, o3) = (sql.clone(), others.clone()); std::thread::spawn(move || {
+        for (i, p) in o3.iter().enumerate() { if i % 3 == t { let _ = compile(p); } }
+        let r = compile(&s3);
+        for (i, p) in o3.iter().enumerate() { if i % 3 != t { let _ = compile(p); } }
+        r }) }).collect();
+    for h in handles { match h.join() { Ok(r) => again("concurrent", r, &mut out), Err(_) => out.fail(&format!("C16/determ/outcome-differs/concurrent/{cls}"), format!("{sql}: thread died")) } }
     // fixpoint: compile the rendered text
     let sig1 = schema_sig(&r1);
     let r4 = match compile(&t1) {
